@@ -22,15 +22,17 @@ def corpus_cases():
 def streams(tier, seed):
     rng = random.Random(seed)
     quick = tier == "quick"
-    exh4 = list(treedist.exhaustive_pairs(4, rng))
+    out = [("td_corpus", corpus_cases()), ("td_exhaustive4", list(treedist.exhaustive_pairs(4, rng)))]
     if quick:
-        exh5 = list(treedist.exhaustive_pairs(5, rng, stride=(seed % 97, 97), taxa=treedist.MIXED))
+        out.append(("td_exhaustive5", list(treedist.exhaustive_pairs(5, rng, stride=(seed % 97, 97),
+                                                                     taxa=treedist.MIXED))))
     else:
-        exh5 = list(treedist.exhaustive_pairs(5, rng, taxa=treedist.MIXED))
-    ords = list(treedist.ordering_cases(rng, 12 if quick else 150, cap=100 if quick else 720))
-    rand = [treedist.gen_case(rng) for _ in range(1000 if quick else 30000)]
-    return [("td_corpus", corpus_cases()), ("td_exhaustive4", exh4), ("td_exhaustive5", exh5),
-            ("td_orderings", ords), ("td_random", rand)]
+        for k in range(4):                         # all 236^2 pairs, in four streams
+            out.append(("td_exhaustive5_%d" % k, list(treedist.exhaustive_pairs(5, rng, stride=(k, 4),
+                                                                                taxa=treedist.MIXED))))
+    out.append(("td_orderings", list(treedist.ordering_cases(rng, 12 if quick else 80, cap=100 if quick else 720))))
+    out.append(("td_random", [treedist.gen_case(rng) for _ in range(1000 if quick else 12000)]))
+    return out
 
 
 def _failing_taxa(run, limit=3):
